@@ -97,7 +97,7 @@ func vScenarioC19(rc *runCtx) {
 		l.SegPm = []int{0, 300}[tp.Draw("c19.seg", 2)]
 		// start headers and cancel sequences travel within one read (the detectors work per read)
 		l.Atomic = func(d []byte) bool {
-			return bytes.Contains(d, []byte("**\x18B0")) || bytes.Contains(d, vZCancel[:5]) || bytes.Contains(d, []byte("cannot open"))
+			return bytes.Contains(d, []byte("**\x18B0")) || bytes.Contains(d, vZCancel[:5]) || bytes.Contains(d, []byte("cannot open")) || bytes.Contains(d, []byte("remote-shell-"))
 		}
 		l.SealAtomic = true
 	}
@@ -336,6 +336,17 @@ func vScenarioC19(rc *runCtx) {
 	upAll, _, _ := up.Snapshot()
 	termAll, _, _ := term.Snapshot()
 	rc.res.Scenario["helper_starts"] = helperStarts
+	rc.res.Scenario["helper_start_at"], rc.res.Scenario["server_cancel_at"] = helperStartAt.String(), cancelAt.String()
+	if helper != nil {
+		killed := false
+		select {
+		case <-helper.killed:
+			killed = true
+		default:
+		}
+		rc.res.Scenario["helper_got"], rc.res.Scenario["helper_killed"], rc.res.Scenario["helper_exited"] = vQuote(helper.gotIn, 80), killed, helper.exited
+	}
+	rc.res.Scenario["server_got"] = vQuote(upAll, 120)
 
 	if veto != 0 {
 		if helperStarts != 0 {
